@@ -222,3 +222,59 @@ def mac_race(ctx, exe, seconds=4.0, nthreads=4, label="macrace"):
         pool.join()
     rc, rep = d.stop(timeout=30)
     return problems, rep, total
+
+
+def broken_connections_phase(ctx, exe, n=120, nofile=48, label="brokenconn"):
+    """Many connections broken at every byte offset of the request header (and a few inside the body) against ONE daemon
+    whose descriptor limit is small: afterwards an ordinary request must still complete, and the daemon must not hold more
+    descriptors than before (every broken connection is closed on the daemon's side too).  Returns (problems, report, n)."""
+    import socket, subprocess
+    d = rig.Daemon(ctx, exe, tag=label, nthreads=2)
+    if not d.start():
+        return [{"why": "daemon does not start (%s)" % label}], "", 0
+    probs = []
+    try:
+        subprocess.run(["prlimit", "--pid", str(d.p.pid), "--nofile=%d:%d" % (nofile, nofile)], capture_output=True)
+
+        def nfds():
+            try:
+                return len(os.listdir("/proc/%d/fd" % d.p.pid))
+            except OSError:
+                return -1
+        rig.canary(d.sock)
+        before = nfds()
+        body = rig.enc_req_body(data=b"x" * 40)
+        raw = rig.hdr(rig.T_ENC_REQ, 0, len(body)) + body
+        sent = 0
+        for i in range(n):
+            k = i % 14 if i % 5 else 11 + (i % len(body))          # mostly header offsets 0..13, some inside the body
+            try:
+                s = socket.socket(socket.AF_UNIX, socket.SOCK_STREAM)
+                s.settimeout(2)
+                s.connect(d.sock)
+                s.sendall(raw[:k])
+                s.close()
+                sent += 1
+            except OSError as e:
+                probs.append({"why": "after %d connections broken inside the request (header offsets 0..13) the daemon no longer accepts "
+                                     "connections: %s (descriptor limit %d)" % (i, e, nofile), "broken_connections": i})
+                break
+            ctx.count(("broken-conn", k))
+        # broken connections are noticed by the workers within the I/O timeout; give them that long
+        t0 = time.time()
+        after = nfds()
+        while after > before and time.time() - t0 < 6.0:
+            time.sleep(0.2)
+            after = nfds()
+        c = rig.canary(d.sock) if not probs else "not tried"
+        if c and not probs:
+            probs.append({"why": "after %d connections broken inside the request header an ordinary request no longer completes: %s "
+                                 "(daemon holds %d descriptors, %d before; limit %d)" % (sent, c, after, before, nofile),
+                          "broken_connections": sent})
+        elif after > before and not probs:
+            probs.append({"why": "the daemon holds %d descriptors after %d connections broken inside the request header (%d before): "
+                                 "broken connections are not closed on the daemon's side; service stops once the limit is reached"
+                                 % (after, sent, before), "broken_connections": sent})
+    finally:
+        rc, rep = d.stop()
+    return probs, rep, n
